@@ -31,6 +31,10 @@ def rule(segs, branch=False, methods=None, strict="d", merge="d", endpoint=None,
             "endpoint": endpoint, "defaults": list(defaults), "alias": alias}
 
 
+def is_path_rule(r):
+    return any(s["conv"] == "path" for s in r["segs"])
+
+
 def _conv_text(s):
     c = s["conv"]
     if c == "string":
